@@ -1,5 +1,5 @@
 SPECIFICATION Spec
 CONSTANTS
-  MaxEdits = 2
+  MaxEdits = 1
   PairKinds = "deletes"
 INVARIANT TypeOK
